@@ -1,1 +1,143 @@
-(** Props/C05.v — placeholder, to be written. *)
+(** Props/C05.v — foreach and while iterate exactly as declared and nest while > foreach > step. *)
+From PV Require Import Engine EngineProofs.
+Open Scope string_scope.
+Notation RG := (list val -> option string -> option string -> st -> R).
+Notation RP := (string -> option (list val) -> option string -> option string -> st -> R).
+
+(** the iterable is formatted exactly once, before the first iteration *)
+Theorem C05_foreach_evaluated_once : forall (rg : RG) (rp : RP) sp k s fe v items,
+  s_foreach sp = Some fe -> fmt s fe = Ok v -> iter_items v = Ok items ->
+  foreach_loop rg rp sp k s = foreach_items rg rp sp k items s.
+Proof. exact foreach_loop_once. Qed.
+Print Assumptions C05_foreach_evaluated_once.
+
+(** one conditional execution per item, in order, with [i] bound to the item *)
+Theorem C05_foreach_in_order : forall (rg : RG) (rp : RP) sp k a b s,
+  foreach_items rg rp sp k (a ++ b) s
+  = andthen (foreach_items rg rp sp k a s) (foreach_items rg rp sp k b).
+Proof. exact foreach_items_app. Qed.
+Print Assumptions C05_foreach_in_order.
+
+Theorem C05_foreach_binds_i : forall (rg : RG) (rp : RP) sp k it s,
+  foreach_items rg rp sp k [it] s =
+  andthen (cond rg rp sp (mkcnt (k_while k) (Some it) (k_retry k))
+                (set_ctx s (sset "i" it (ctx s))))
+          (fun s' => (OOk, s')).
+Proof. exact foreach_items_one. Qed.
+Print Assumptions C05_foreach_binds_i.
+
+(** length 0: the step does not run at all *)
+Theorem C05_foreach_empty : forall (rg : RG) (rp : RP) sp k s,
+  foreach_items rg rp sp k [] s = (OOk, s).
+Proof. exact foreach_items_nil. Qed.
+Print Assumptions C05_foreach_empty.
+
+(** an error (or instruction) that is not swallowed ends the foreach at once *)
+Theorem C05_error_ends_foreach : forall (rg : RG) (rp : RP) sp k pre it post s s1 o s2,
+  foreach_items rg rp sp k pre s = (OOk, s1) ->
+  cond rg rp sp (mkcnt (k_while k) (Some it) (k_retry k)) (set_ctx s1 (sset "i" it (ctx s1))) = (o, s2) ->
+  o <> OOk ->
+  foreach_items rg rp sp k (pre ++ it :: post) s = (o, s2).
+Proof. exact foreach_items_stops. Qed.
+Print Assumptions C05_error_ends_foreach.
+
+(** KNOWN FINDING (kept visible): "foreach executes the step once per item ... of any length
+    including 0" is false for a LITERAL falsy iterable — [foreach: []] is treated as "no
+    foreach" and the step runs once, without [i]. Behaviour pinned by
+    tests/unit/pypyr/dsl_test.py::test_foreach_empty, so it is recorded, not repaired. *)
+Theorem C05_foreach_literal_empty_refuted : exists (sp : step),
+  s_foreach sp = Some (VList []) /\
+  forall (rg : RG) (rp : RP) k s, foreach_or_cond rg rp sp k s = cond rg rp sp k s.
+Proof.
+  exists (mkstep "x" BProbe None (Some (VList [])) None None (VBool true) (VBool false) (VBool false) None None).
+  split; [reflexivity|]. intros. now apply foreach_or_cond_falsy.
+Qed.
+Print Assumptions C05_foreach_literal_empty_refuted.
+
+(** the part that does hold: when the raw foreach value is truthy the loop runs *)
+Theorem C05_foreach_partial : forall (rg : RG) (rp : RP) sp k s,
+  has_foreach sp = true -> foreach_or_cond rg rp sp k s = foreach_loop rg rp sp k s.
+Proof. intros rg rp sp k s H. unfold foreach_or_cond. now rewrite H. Qed.
+Print Assumptions C05_foreach_partial.
+
+(** while: the four equations below fully determine the loop driver.
+    (1) the first iteration whose post-execution stop is true ends the loop, no sleep after *)
+Theorem C05_while_ends_on_stop : forall fuel iter interval max i s s1,
+  iter (i + 1)%Z s = (IDone true, s1) ->
+  poll (S fuel) iter interval max i s = (IDone true, s1).
+Proof. exact poll_done. Qed.
+Print Assumptions C05_while_ends_on_stop.
+
+(** (2) once max iterations have run the loop ends, no sleep after the last one *)
+Theorem C05_while_ends_on_max : forall fuel iter interval m i s s1 d,
+  iter (i + 1)%Z s = (IDone false, s1) -> interval (Z.to_nat (i + 1)) = Some d ->
+  m <> 0%Z -> (m <= i + 1)%Z ->
+  poll (S fuel) iter interval (Some m) i s = (IDone false, s1).
+Proof. exact poll_exhausted. Qed.
+Print Assumptions C05_while_ends_on_max.
+
+(** (3) otherwise: exactly one sleep, then iteration number i+2 *)
+Theorem C05_while_sleeps_between : forall fuel iter interval max i s s1 d,
+  iter (i + 1)%Z s = (IDone false, s1) -> interval (Z.to_nat (i + 1)) = Some d ->
+  (max = None \/ max = Some 0%Z \/ exists m, max = Some m /\ (i + 1 < m)%Z) ->
+  poll (S fuel) iter interval max i s = poll fuel iter interval max (i + 1)%Z (add_sleep s1 d).
+Proof. exact poll_again. Qed.
+Print Assumptions C05_while_sleeps_between.
+
+(** (4) an error ends the loop *)
+Theorem C05_error_ends_while : forall fuel iter interval max i s o s1,
+  iter (i + 1)%Z s = (IRaise o, s1) ->
+  poll (S fuel) iter interval max i s = (IRaise o, s1).
+Proof. exact poll_raise. Qed.
+Print Assumptions C05_error_ends_while.
+
+(** not at all when max < 1 *)
+Theorem C05_while_max_lt_1 : forall (rg : RG) (rp : RP) w sp s eom sleep m,
+  let s0 := set_ctx s (sset "whileCounter" (VInt 0) (ctx s)) in
+  w_max w = Some m ->
+  as_bool s0 (w_eom w) = Ok eom -> as_float s0 (w_sleep w) = Ok sleep ->
+  forall z, as_int s0 m = Ok z -> (z < 1)%Z ->
+  while_loop rg rp w sp s = (OOk, s0).
+Proof. exact while_loop_max_lt_1. Qed.
+Print Assumptions C05_while_max_lt_1.
+
+(** nesting while > foreach > run/skip/swallow: each while iteration injects whileCounter,
+    runs the COMPLETE foreach sequence, and only then evaluates stop *)
+Theorem C05_nesting : forall (rg : RG) (rp : RP) w sp n s s1,
+  foreach_or_cond rg rp sp (mkcnt (Some n) None None)
+                  (set_ctx s (sset "whileCounter" (VInt n) (ctx s))) = (OOk, s1) ->
+  while_iter rg rp w sp n s =
+  if opt_truth (w_stop w) then
+    match w_stop w with
+    | Some e =>
+        match as_bool s1 e with
+        | Ok b => (IDone b, s1)
+        | Err en em => let '(o, s2) := raise_new en em s1 in (IRaise o, s2)
+        | Unsup => (IRaise OUnsup, s1)
+        end
+    | None => (IDone false, s1)
+    end
+  else (IDone false, s1).
+Proof. exact while_iter_ok. Qed.
+Print Assumptions C05_nesting.
+
+Theorem C05_error_leaves_all_loops : forall (rg : RG) (rp : RP) w sp n s o s1,
+  foreach_or_cond rg rp sp (mkcnt (Some n) None None)
+                  (set_ctx s (sset "whileCounter" (VInt n) (ctx s))) = (o, s1) ->
+  o <> OOk -> while_iter rg rp w sp n s = (IRaise o, s1).
+Proof. exact while_iter_not_ok. Qed.
+Print Assumptions C05_error_leaves_all_loops.
+
+(** * Non-vacuity: while(max 3, stop when cnt>=4) over foreach [a;b], sleeping 1/2 *)
+Definition lib5 : library :=
+  [("main", [("steps", Some [
+      mkstep "vincr" BIncr (Some [(VStr "vincr", VStr "cnt")])
+             (Some (VList [VStr "a"; VStr "b"]))
+             (Some (mkw (Some (VInt 3)) (Some (VPy "(cnt >= 4)" (ECmp CGe (EName "cnt") (EInt 4))))
+                        (VFloat (1 # 2)) (VBool true))) None
+             (VBool true) (VBool false) (VBool false) None (Some (1, 5)%Z)])])].
+Example C05_nonvacuous :
+  let r := api_run EFUEL lib5 "main" [(VStr "cnt", VInt 0)] None None None (1 # 4) in
+  fst r = OOk /\ sget "cnt" (ctx (snd r)) = Some (VInt 4) /\ sleeps (snd r) = [1 # 2]
+  /\ sget "whileCounter" (ctx (snd r)) = Some (VInt 2).
+Proof. vm_compute. repeat split; reflexivity. Qed.
